@@ -116,7 +116,7 @@ func modelSortBasic(es Sort, isStr bool) func(x *Exec, st *State, fr *Frame, cal
 		i, j := Var("si", SInt), Var("sj", SInt)
 		n := SlLen(s)
 		inr := func(v *Term) *Term { return And(Cmp(">=", v, IntLit(0)), Cmp("<", v, n)) }
-		at := func(hh *Term, v *Term) *Term { return Select(Select(hh, SlArr(s)), Arith("+", SlOff(s), v)) }
+		at := func(hh *Term, v *Term) *Term { return Select(Select(hh, SlArr(s)), Sidx(SlOff(s), v)) }
 		pi := App(perm, SInt, i)
 		st.assume(Forall([]*Term{i}, Implies(inr(i), And(inr(pi), Eq(App(inv, SInt, pi), i), Eq(at(nh, i), at(h, pi)))), []*Term{pi}))
 		ii := App(inv, SInt, i)
